@@ -7,6 +7,8 @@
 #
 # variants (same configuration as the tree's own in-tree build, other flags):
 #   san    clang -O1 -g ASan + UBSan subset + fuzzer-no-link coverage
+#          (UBSan 'bounds' is not used: it fires on the benign 'powtab - 1 + pi' pointer
+#          formation in mpn/generic/get_str.c; real out-of-bounds accesses are ASan's job)
 #   opt    gcc -O2 -g
 #   tsan   clang -O1 -g -fsanitize=thread
 #   asan   clang -O1 -g ASan only (no coverage instrumentation; for C++/C20)
@@ -16,7 +18,7 @@ V="$1"
 REPO="${VERIF_REPO:-/repo}"
 HERE="$(cd "$(dirname "$0")" && pwd)"
 ROOT="$(dirname "$HERE")"
-TH="$("$HERE/treehash.sh" "$REPO")"
+TH="$("$HERE/treehash.sh" "$REPO")-$(cat "$HERE/mkvariant.sh" "$HERE"/cfg/* 2>/dev/null | sha1sum | cut -c1-6)"
 CACHE="$ROOT/.cache/$TH"
 OUT="$CACHE/$V"
 mkdir -p "$CACHE"
@@ -32,7 +34,7 @@ rsync -a --exclude .git --exclude '*.o' --exclude '*.lo' --exclude '*.la' --excl
       --exclude '*.a' --exclude '*.so' --exclude '*.so.*' --exclude '*.log' --exclude '*.trs' \
       "$REPO"/ "$SCR"/src/ >>"$LOG" 2>&1
 # test programs (ELF, no suffix) are not needed
-UBS="bounds,null,nonnull-attribute,returns-nonnull-attribute,return,unreachable,vla-bound,bool,enum"
+UBS="null,nonnull-attribute,returns-nonnull-attribute,return,unreachable,vla-bound,bool,enum"
 J="${VERIF_JOBS:-16}"
 build_intree() {   # $1=CC  $2=CCAS $3=CFLAGS
   cd "$SCR/src" || return 1
